@@ -15,6 +15,7 @@ type Env struct {
 	vars   map[string]*Val
 	sub    map[ssa.Value]*Val
 	header *ssa.BasicBlock
+	noLocals bool
 	bound  map[string]string
 	boundStr map[string]bool
 }
@@ -55,6 +56,9 @@ func (v *Env) lookup(name string) *Val {
 				}
 			}
 		}
+	}
+	if v.noLocals {
+		panic("contract: unknown identifier " + name)
 	}
 	// source-level local at a loop header
 	if v.header != nil {
@@ -234,7 +238,14 @@ func (v *Env) eval(x Expr) *Val {
 		l, r := v.eval(x.L), v.eval(x.R)
 		switch x.Op {
 		case "==", "!=":
-			f := v.equal(l, r)
+			var f string
+			if ls, ok := x.R.(*EStr); ok && l.typ != nil && isString(l.typ) {
+				f = v.e.strEqLit(l.c[0], ls.S)
+			} else if ls, ok := x.L.(*EStr); ok && r.typ != nil && isString(r.typ) {
+				f = v.e.strEqLit(r.c[0], ls.S)
+			} else {
+				f = v.equal(l, r)
+			}
 			if x.Op == "!=" {
 				f = not(f)
 			}
